@@ -929,7 +929,8 @@ def slice_C11(ctx):
         al = lower + upper[:2] + rng.choice(CASELESS) + rng.choice(CASELESS)
         g = gen.Gen(rng, alphabet=al, feats={"cls", "grp", "nc", "reluctant", "alt", "quant", "bref", "dot"})
         # ranges only inside one case of one script, so that the range is within the clean alphabet
-        ast, pat = g.pattern(rng.randint(1, 8))
+        ast, _ = g.pattern(rng.randint(1, 8))
+        pat = gen.pp(ast)              # both spellings printed the same way: only the letters differ
         ast2 = swap_ast(ast, m, rng)
         pat2 = gen.pp(ast2)
         for inp in gen.inputs_for(rng, al, 3)[1:] + ["".join(rng.choice(lower + upper) for _ in range(4))]:
